@@ -1137,3 +1137,209 @@ for _q in ("pygopherd/handlers/mbox.py::MBoxFolderHandler.canhandlerequest", "py
            "pygopherd/handlers/mbox.py::MessageHandler.canhandlerequest", "pygopherd/handlers/pyg.py::PYGHandler.canhandlerequest",
            "pygopherd/handlers/scriptexec.py::ExecHandler.canhandlerequest"):
     REALISERS.append((_q, (lambda d: r_zip(d) if d.get("property") == "C16" else None)))
+
+
+# ------------------------------------------------------------------- simpleTAL: pure functions (C17)
+def r_tal_pure(d):
+    """Counter-model replay for the command compilers and the repeat-variable getters: call the real method with the
+    model's argument and evaluate the contract clause natively."""
+    from simpletal import simpleTAL, simpleTALES
+    m = d["model"]
+    fn = d["function"].split("::")[1].split(" [")[0]
+    cls, meth = fn.split(".")
+
+    def env_fn(tls):
+        if cls in ("TemplateCompiler", "HTMLTemplateCompiler"):
+            o = simpleTAL.TemplateCompiler()
+            o.currentStartTag = ("div", [])
+            o.endTagSymbol = int(m.get("self.endTagSymbol", 7))
+            env = {"self": o, "argument": m.get("argument", ""), "replaceFlag": int(m.get("replaceFlag", 0))}
+        else:
+            n = max(1, int(m.get("self.sequence_len", 1)))
+            o = simpleTALES.RepeatVariable(list(range(n)))
+            o.position = int(m.get("self.position", 0))
+            env = {"self": o}
+        env["S"] = S
+        env["implies"] = implies
+        return env
+
+    def call_fn(env):
+        f = getattr(env["self"], meth)
+        if "argument" in env and meth == "compileCmdContent":
+            return f(env["argument"], env["replaceFlag"])
+        if "argument" in env:
+            return f(env["argument"])
+        return f()
+
+    r = _native_check(d, env_fn, call_fn)
+    return r
+
+
+REALISERS.append(("simpletal/simpleTAL.py::TemplateCompiler.compileCmd", r_tal_pure))
+REALISERS.append(("simpletal/simpleTALES.py::RepeatVariable.get", r_tal_pure))
+
+
+# ------------------------------------------------------------------- simpleTAL scenarios (C17 / C18 stand-in)
+def r_tal(d):
+    """Bounded stand-in for the parts of C17/C18 that are induction over whole programs: generated templates (every
+    subset of define/condition/repeat/content|replace/attributes/omit-tag on nested elements) x contexts with markup
+    metacharacters, missing paths, empty sequences.  Checks: compiled programs are well-formed (scopes balanced, every
+    jump symbol points at the ENDTAG_ENDSCOPE of the element that owns the command); context data never becomes
+    markup; python: is inert when disabled; a TAL-free document round-trips and is a fixed point; locals, globals and
+    the repeat map are what they were before the expansion; repeat letter/roman numbering against a reference."""
+    import io as _io, itertools, html.parser
+    from simpletal import simpleTAL, simpleTALES
+    what = d.get("function", "") + " " + d.get("obligation", "")
+    EVIL = '<script>alert(1)</script>&"\'x'
+
+    class Canary:
+        hits = 0
+
+        def __call__(self):
+            Canary.hits += 1
+            return "CANARY"
+
+    def mkctx(allow):
+        ctx = simpleTALES.Context(allowPythonPath=allow)
+        ctx.addGlobal("evil", EVIL)
+        ctx.addGlobal("items", [EVIL, "two", "<b>three</b>"])
+        ctx.addGlobal("empty", [])
+        ctx.addGlobal("num", 42)
+        ctx.addGlobal("nested", {"k": EVIL, "l": [1, 2]})
+        ctx.addGlobal("canary", Canary())
+        return ctx
+
+    def skeleton(doc):
+        out = []
+
+        class P(html.parser.HTMLParser):
+            def handle_starttag(self, tag, attrs):
+                out.append(("start", tag, tuple(sorted(k for k, v in attrs))))
+
+            def handle_endtag(self, tag):
+                out.append(("end", tag))
+
+        P(convert_charrefs=True).feed(doc)
+        return out
+
+    commands = {"define": 'tal:define="v evil; w missing/path | nothing"', "condition": 'tal:condition="COND"', "repeat": 'tal:repeat="it SEQ"',
+                "content": 'tal:content="EXPR"', "replace": 'tal:replace="EXPR"', "attributes": 'tal:attributes="title EXPR; class v | default"', "omit": 'tal:omit-tag="OMIT"'}
+    names = ["define", "condition", "repeat", "content", "attributes", "omit"]
+    templates = []
+    for r in range(len(names) + 1):
+        for combo in itertools.combinations(names, r):
+            for variant in range(3):
+                atts = " ".join(commands["replace" if (c == "content" and variant == 2) else c] for c in combo)
+                atts = atts.replace("COND", ["evil", "missing/path", "not:empty"][variant]).replace("SEQ", ["items", "empty", "missing/path"][variant])
+                atts = atts.replace("EXPR", ["evil", "it | evil", "string:${evil} and $num"][variant]).replace("OMIT", ["", "evil", "nothing"][variant])
+                inner = '<i tal:repeat="j nested/l" tal:content="repeat/j/number">n</i><span tal:define="global g evil" tal:content="g">t</span>'
+                templates.append('<html><body><p id="static" %s>body %s</p><hr><div tal:define="z num">after <b tal:content="z">z</b></div></body></html>' % (atts, inner))
+    templates.append('<html><body><p tal:content="python: canary()">x</p><p tal:condition="python: canary()">y</p><p tal:attributes="a python: canary()">z</p></body></html>')
+    templates.append('<html><div metal:define-macro="m"><p>macro <span metal:define-slot="s">default</span></p></div><div metal:use-macro="container/macros/m"><b metal:fill-slot="s" tal:content="evil">x</b></div></html>')
+    n = 0
+    for t in templates:
+        try:
+            tpl = simpleTAL.compileHTMLTemplate(t)
+        except Exception as e:  # noqa
+            return {"confirmed": True, "scenario": "a well-formed template does not compile", "template": t, "raised": repr(e)}
+        # ---- C17: structure of the compiled program
+        cmds, syms = tpl.commandList, tpl.symbolTable
+        depth = 0
+        owners = []
+        for idx, (op, args) in enumerate(cmds):
+            if op == simpleTAL.TAL_START_SCOPE:
+                depth += 1
+                owners.append(idx)
+            elif op == simpleTAL.TAL_ENDTAG_ENDSCOPE:
+                depth -= 1
+                if depth < 0:
+                    return {"confirmed": True, "scenario": "compiled program closes a scope it never opened", "template": t, "at": idx}
+        if depth != 0:
+            return {"confirmed": True, "scenario": "compiled program leaves %d scope(s) open" % depth, "template": t}
+        stack = []
+        for idx, (op, args) in enumerate(cmds):
+            if op == simpleTAL.TAL_START_SCOPE:
+                stack.append([idx, None])
+            elif op == simpleTAL.TAL_ENDTAG_ENDSCOPE:
+                start, sym = stack.pop()
+                if sym is not None and syms.get(sym) != idx:
+                    return {"confirmed": True, "scenario": "a jump symbol of the element opened at %d points at %r, not at its end tag %d" % (start, syms.get(sym), idx), "template": t}
+            else:
+                sym = None
+                if op in (simpleTAL.TAL_CONDITION,):
+                    sym = args[1]
+                elif op in (simpleTAL.TAL_REPEAT, simpleTAL.METAL_USE_MACRO):
+                    sym = args[2]
+                elif op == simpleTAL.TAL_CONTENT:
+                    sym = args[3]
+                elif op == simpleTAL.METAL_DEFINE_SLOT:
+                    sym = args[1]
+                if sym is not None:
+                    if not stack:
+                        return {"confirmed": True, "scenario": "jumping command outside any scope", "template": t}
+                    if stack[-1][1] is not None and stack[-1][1] != sym:
+                        return {"confirmed": True, "scenario": "two commands of one element jump to different symbols", "template": t}
+                    stack[-1][1] = sym
+        # ---- C18: expansion
+        for allow in (0, 1):
+            ctx = mkctx(allow)
+            if "macro" in t:
+                ctx.addGlobal("container", tpl)
+            before_l = dict(ctx.locals)
+            before_g = {k: v for k, v in ctx.globals.items() if k not in ("attrs", "g")}
+            before_r = dict(ctx.repeatMap)
+            depth_l, depth_r = len(ctx.localStack), len(ctx.repeatStack)
+            Canary.hits = 0
+            out = _io.StringIO()
+            try:
+                tpl.expand(ctx, out)
+            except Exception as e:  # noqa
+                return {"confirmed": True, "scenario": "expansion raised", "template": t, "allowPythonPath": allow, "raised": repr(e)}
+            n += 1
+            doc = out.getvalue()
+            if not allow and Canary.hits and "python:" in t:
+                return {"confirmed": True, "scenario": "a python: expression was evaluated with allowPythonPath off (canary called %d times)" % Canary.hits, "template": t}
+            if "structure" not in t and ("<script" in doc or any(tag[1] == "script" for tag in skeleton(doc) if tag[0] == "start")):
+                return {"confirmed": True, "scenario": "context data became markup in the output", "template": t, "output": doc[:400]}
+            for tag in skeleton(doc):
+                if tag[0] == "start" and any(a not in ("id", "title", "class", "a") for a in tag[2]):
+                    return {"confirmed": True, "scenario": "context data introduced an attribute", "template": t, "tag": repr(tag), "output": doc[:400]}
+            after_g = {k: v for k, v in ctx.globals.items() if k not in ("attrs", "g")}
+            if dict(ctx.locals) != before_l or after_g != before_g or dict(ctx.repeatMap) != before_r or len(ctx.localStack) != depth_l or len(ctx.repeatStack) != depth_r:
+                return {"confirmed": True, "scenario": "the context is not what it was before the expansion", "template": t,
+                        "locals": [sorted(before_l), sorted(ctx.locals)], "stack depths": [depth_l, len(ctx.localStack), depth_r, len(ctx.repeatStack)],
+                        "repeat": [sorted(before_r), sorted(ctx.repeatMap)]}
+    # ---- TAL-free documents: equivalent output, fixed point
+    for docsrc in ('<html><head><title>T &amp; U</title></head><body class="x y"><p>a <b>b</b> &lt;c&gt;</p><br><img src="i.png" alt="q&quot;q"><ul><li>1<li>2</ul></body></html>',
+                   '<div><p>unclosed<p>again</div><input type="text" value="a&amp;b">'):
+        o1 = _io.StringIO(); simpleTAL.compileHTMLTemplate(docsrc).expand(simpleTALES.Context(), o1)
+        o2 = _io.StringIO(); simpleTAL.compileHTMLTemplate(o1.getvalue()).expand(simpleTALES.Context(), o2)
+        if skeleton(o1.getvalue()) != skeleton(docsrc) or o1.getvalue() != o2.getvalue():
+            return {"confirmed": True, "scenario": "a TAL-free document is not reproduced / is not a fixed point", "document": docsrc, "first": o1.getvalue(), "second": o2.getvalue()}
+    # ---- repeat numbering (exhaustive over the supported range)
+    def roman(k):
+        out_ = ""
+        for sym, val in (("m", 1000), ("cm", 900), ("d", 500), ("cd", 400), ("c", 100), ("xc", 90), ("l", 50), ("xl", 40), ("x", 10), ("ix", 9), ("v", 5), ("iv", 4), ("i", 1)):
+            while k >= val:
+                out_ += sym
+                k -= val
+        return out_
+
+    def letter(k):
+        s_ = ""
+        while True:
+            k, off = divmod(k, 26)
+            s_ = chr(ord("a") + off) + s_
+            if not k:
+                return s_
+
+    rv = simpleTALES.RepeatVariable(list(range(4000)))
+    for pos in range(4000):
+        rv.position = pos
+        if rv.getLowerRoman() != roman(pos + 1) or rv.getUpperRoman() != roman(pos + 1).upper() or rv.getLowerLetter() != letter(pos) or rv.getUpperLetter() != letter(pos).upper():
+            return {"confirmed": True, "scenario": "repeat variable numbering at index %d" % pos, "roman": rv.getLowerRoman(), "letter": rv.getLowerLetter()}
+    return {"confirmed": None, "note": "%d expansions of %d generated templates passed" % (n, len(templates))}
+
+
+REALISERS.append(("simpletal/", r_tal))
+REALISERS.append(("pygopherd/handlers/tal.py::", r_tal))
